@@ -32,6 +32,11 @@ pub enum Universe {
     /// 2nd rank beside an enemy pawn on the 4th (a new double step creating a new en-passant file). Kings on fixed safe
     /// squares; both colours. The successor of EVERY move kind must have dropped (or replaced) the en-passant file.
     UEX,
+    /// zugzwang family (5 men): the defending king on a corner square or next to it on the edge (12 squares), the attacking
+    /// king at distance exactly 2, two attacking pieces (kinds `a`, `b`) and one defending piece (kind `d`) on every
+    /// square; the attacker to move; both colours. Contains the mates in two whose key is a quiet waiting move after
+    /// which the defender must move a piece of his own.
+    UZ { a: u8, b: u8, d: u8 },
     /// castling x en passant product: kings on e1/e8, every (rook subset, rights subset) of UC, a capturer/victim pawn pair
     /// on every file pair, with the en-passant flag set and not set, both colours: all (rights, ep) state bytes on one board
     UCE,
@@ -59,6 +64,7 @@ impl Universe {
             Universe::UEA => "UEA".into(),
             Universe::UCE => "UCE".into(),
             Universe::UEX => "UEX".into(),
+            Universe::UZ { a, b, d } => format!("UZ[{}{}|{}]", piece_letter(code(*a, true)), piece_letter(code(*b, true)), piece_letter(code(*d, false))),
             Universe::UPIN => "UPIN".into(),
             Universe::UDBL => "UDBL".into(),
         }
@@ -69,6 +75,7 @@ impl Universe {
         match self {
             Universe::U2 | Universe::U3 | Universe::U4 { .. } | Universe::UE { .. } | Universe::UCK { .. } | Universe::UPIN | Universe::UDBL => 64,
             Universe::UEA | Universe::UEX => 8,
+            Universe::UZ { .. } => 12,
             Universe::UC { .. } | Universe::UCE => 81,
             Universe::UP => 8,
         }
@@ -108,6 +115,7 @@ impl Universe {
             Universe::UCK { extras } => uck_unit(unit as u8, *extras, f),
             Universe::UEA => uea_unit(unit as i8, f),
             Universe::UEX => uex_unit(unit as i8, f),
+            Universe::UZ { a, b, d } => uz_unit(unit, *a, *b, *d, f),
             Universe::UPIN => upin_unit(unit as u8, f),
             Universe::UDBL => udbl_unit(unit as u8, f),
             Universe::UCE => {
@@ -574,6 +582,46 @@ fn uex_unit(cf: i8, f: &mut dyn FnMut(Pos)) {
                 }
                 q.rights = rights;
                 emit(q);
+            }
+        }
+    }
+}
+
+fn uz_unit(unit: usize, a: u8, b: u8, d: u8, f: &mut dyn FnMut(Pos)) {
+    let zone: [u8; 12] = [sq(7, 0), sq(7, 1), sq(6, 0), sq(7, 7), sq(7, 6), sq(6, 7), sq(0, 0), sq(0, 1), sq(1, 0), sq(0, 7), sq(0, 6), sq(1, 7)];
+    let dk = zone[unit % 12];
+    for ak in 0..64u8 {
+        let dist = (rank_of(ak) - rank_of(dk)).abs().max((file_of(ak) - file_of(dk)).abs());
+        if dist != 2 {
+            continue;
+        }
+        for sa in 0..64u8 {
+            if sa == dk || sa == ak {
+                continue;
+            }
+            for sb in 0..64u8 {
+                if sb == dk || sb == ak || sb == sa || (a == b && sb < sa) {
+                    continue;
+                }
+                for sd in 0..64u8 {
+                    if sd == dk || sd == ak || sd == sa || sd == sb {
+                        continue;
+                    }
+                    let mut p = Pos::empty();
+                    p.b[dk as usize] = BK;
+                    p.b[ak as usize] = WK;
+                    p.b[sa as usize] = code(a, true);
+                    p.b[sb as usize] = code(b, true);
+                    p.b[sd as usize] = code(d, false);
+                    p.white = true;
+                    if p.sane() {
+                        f(p);
+                        let m = p.mirror();
+                        if m.sane() {
+                            f(m);
+                        }
+                    }
+                }
             }
         }
     }
